@@ -59,10 +59,16 @@ MUTANTS = [
   auto lock = get_lock();''', '''deathwatched<T>::~deathwatched()
 {'''),
     ('M17', 'C12', M, '''      auto lock = get_lock();
+      if (is_unfulfilled())
       {
-        if (!sequences->can_be_called())''', '''      {
-        auto lock = get_lock();
-        if (!sequences->can_be_called())'''),
+        report_missed("Unfulfilled expectation");
+      }
+      this->unlink();''', '''      this->unlink();
+      auto lock = get_lock();
+      if (is_unfulfilled())
+      {
+        report_missed("Unfulfilled expectation");
+      }'''),
     ('M18', 'C12', M, '''    auto lock = get_lock();
 
     call_params_type_t<void(P...)> param_value(std::forward<P>(p)...);
@@ -118,7 +124,14 @@ MUTANTS = [
         if (*pp == this) { *pp = next_monitor; break; }
       }''', '''      object_monitor = nullptr;'''),
     ('M29', 'C12', S, '    bool is_completed() const { auto lock = get_lock(); return obj->is_completed(); }', '    bool is_completed() const { return obj->is_completed(); }'),
-    ('M30', 'C20', C, '''      return run(params);''', '''      return run(std::ref(params));'''),
+    ('M30', 'C20', C, '''      call_params_type_t<Sig> params)
+    {''', '''      call_params_type_t<Sig>& params)
+    {'''),
+    ('M31', 'C14', M, '''      delete t;
+    }
+  };''', '''      (void)t;
+    }
+  };'''),
 ]
 
 
